@@ -98,8 +98,8 @@ func runC05(w *World, r *Report) {
 		"ProcessorManager).Init", "ProcessorManager).CreateProcessor",
 	}
 	exceptions := map[string]string{
-		"(*lunar/engine/streams/flow.flowBuilder).build -> flowBuilder).buildFlow": "first pass parks a failing flow in pendingFlows; the second pass returns the error (checked below)",
-		"lunar/engine/streams/config.GetFlows -> config.validateFlowRepresentation":  "non-validation mode skips a broken flow file and reports it through the aggregated error",
+		"(*lunar/engine/streams/flow.flowBuilder).build -> flowBuilder).buildFlow":  "first pass parks a failing flow in pendingFlows; the second pass returns the error (checked below)",
+		"lunar/engine/streams/config.GetFlows -> config.validateFlowRepresentation": "non-validation mode skips a broken flow file and reports it through the aggregated error",
 	}
 	n2 := 0
 	for _, cs := range w.CallSites(validatorSet...) {
@@ -174,11 +174,11 @@ func runC05(w *World, r *Report) {
 	}
 	reach := cg.Reach(append(append([]*ssa.Function{}, load...), txn...), true)
 	reviewed := map[string]string{
-		"(*lunar/engine/streams/stream.Stream).ExecuteFlow":                                       "terminates on the validated (acyclic from the root) graph; see R6 for the unexamined case",
-		"lunar/engine/streams/flow.dfsDetectCycles":                                              "path-visited set per condition: a revisit returns",
-		"(lunar/engine/utils/obfuscation.Obfuscator).obfuscateJSON":                               "structural recursion on the JSON value",
-		"(*lunar/engine/streams/resources/utils.QuotaNode).GetNode":                                "structural recursion on the quota tree (children are only added below an existing node)",
-		"lunar/toolkit-core/urltree.convergeNodesPaths":                                          "structural recursion on the (finite, acyclic) trie",
+		"(*lunar/engine/streams/stream.Stream).ExecuteFlow":         "terminates on the validated (acyclic from the root) graph; see R6 for the unexamined case",
+		"lunar/engine/streams/flow.dfsDetectCycles":                 "path-visited set per condition: a revisit returns",
+		"(lunar/engine/utils/obfuscation.Obfuscator).obfuscateJSON": "structural recursion on the JSON value",
+		"(*lunar/engine/streams/resources/utils.QuotaNode).GetNode": "structural recursion on the quota tree (children are only added below an existing node)",
+		"lunar/toolkit-core/urltree.convergeNodesPaths":             "structural recursion on the (finite, acyclic) trie",
 		"(*lunar/engine/streams/flow.flowBuilder).buildConnection,(*lunar/engine/streams/flow.flowBuilder).buildConnections,(*lunar/engine/streams/flow.flowBuilder).connectFlowToProcessor,(*lunar/engine/streams/flow.flowBuilder).connectProcessorToFlow,(*lunar/engine/streams/flow.flowBuilder).incorporateFlow": "GUARDED by the incorporating set (checked by R4 incorporateFlow/re-entry-rejected)",
 	}
 	seenSCC := map[string]bool{}
